@@ -63,6 +63,10 @@ pub struct Profile {
     pub prefix: String,
     /// plant uniquely identifiable warning/error sites (C13)
     pub back_edges: bool,
+    /// allow `-> DONE` terminators and bodies that run off their end
+    pub done_and_fall_off: bool,
+    /// every fourth program is an idiom program (see idioms.rs) instead of a grammar one
+    pub idioms: bool,
 }
 
 impl Default for Profile {
@@ -86,6 +90,8 @@ impl Default for Profile {
             floats: false,
             prefix: String::new(),
             back_edges: true,
+            done_and_fall_off: true,
+            idioms: true,
         }
     }
 }
@@ -106,7 +112,7 @@ const WORDS: &[&str] = &[
     "alpha", "bravo", "charlie", "delta", "echo", "foxtrot", "golf", "hotel", "india", "juliet",
     "kilo", "lima", "mike", "november", "oscar", "papa", "quebec", "romeo", "sierra", "tango",
     "Once", "upon", "a", "time,", "the", "end.", "Yes!", "No?", "we", "went", "home;", "it's",
-    "fine", "x2", "42", "3.5", "(so)", "far", "and", "or",
+    "fine", "x2", "42", "3.5", "so", "far", "and", "or",
 ];
 
 #[derive(Clone)]
@@ -121,6 +127,8 @@ struct KnotPlan {
 struct FuncPlan {
     name: String,
     params: Vec<String>,
+    /// parameter passed by reference (`ref x`)
+    refs: Vec<bool>,
     ret: Option<Ty>,
 }
 
@@ -232,9 +240,14 @@ impl<'a> Gen<'a> {
                     2 => None,
                     _ => Some(Ty::Bool),
                 };
+                let mut refs = vec![false; np];
+                if np > 0 && !self.p.pure_functions && self.t.chance(1, 3) {
+                    refs[0] = true;
+                }
                 self.funcs.push(FuncPlan {
                     name: self.pre(&format!("f{i}")),
                     params: (0..np).map(|j| self.pre(&format!("a{j}"))).collect(),
+                    refs,
                     ret,
                 });
             }
@@ -360,9 +373,24 @@ impl<'a> Gen<'a> {
             };
             let mut body = vec![];
             let n = self.t.pick(4);
-            for _ in 0..n {
+            for k in 0..n {
                 let s = self.simple_stmt(&mut sc, 0);
                 body.push(s);
+                if plan.refs.first() == Some(&true) && (k == 0 || self.t.chance(1, 2)) {
+                    // assignment through the reference, typically after a printed line
+                    body.push(Stmt::Assign(
+                        plan.params[0].clone(),
+                        Expr::Bin(
+                            "+",
+                            Box::new(Expr::Var(plan.params[0].clone())),
+                            Box::new(Expr::int(1)),
+                        ),
+                    ));
+                }
+            }
+            if plan.refs.first() == Some(&true) && n == 0 {
+                body.push(Stmt::Line(self.text_line(&sc, false)));
+                body.push(Stmt::AssignOp(plan.params[0].clone(), "+=", Expr::int(2)));
             }
             match &plan.ret {
                 Some(Ty::Int) => body.push(Stmt::Return(Some(self.int_expr(&sc, 2)))),
@@ -375,7 +403,12 @@ impl<'a> Gen<'a> {
             }
             prog.functions.push(Function {
                 name: plan.name.clone(),
-                params: plan.params.clone(),
+                params: plan
+                    .params
+                    .iter()
+                    .zip(plan.refs.iter())
+                    .map(|(p, r)| if *r { format!("ref {p}") } else { p.clone() })
+                    .collect(),
                 body,
                 ret: plan.ret.clone(),
                 pure_fn: self.p.pure_functions,
@@ -442,6 +475,10 @@ impl<'a> Gen<'a> {
             KnotKind::Tunnel => Stmt::TunnelReturn,
             KnotKind::ThreadTarget => Stmt::Done,
             KnotKind::Plain => {
+                // occasionally `-> DONE` (safe exit; pending fallback choices still run)
+                if self.p.done_and_fall_off && self.t.chance(1, 8) {
+                    return Stmt::Done;
+                }
                 let f = self.forward_targets(sc);
                 if f.is_empty() {
                     return Stmt::End;
@@ -534,7 +571,36 @@ impl<'a> Gen<'a> {
                 }
             }
             b.group = Some(self.group(sc, depth, must_end));
+        } else if must_end
+            && self.p.threads
+            && self.p.done_and_fall_off
+            && sc.kind == KnotKind::Plain
+            && sc.func.is_none()
+            && self.t.chance(1, 3)
+            && self
+                .knots
+                .iter()
+                .enumerate()
+                .any(|(j, k)| k.kind == KnotKind::ThreadTarget && sc.kidx.map(|i| j > i).unwrap_or(true))
+        {
+            // "offer the options of a thread, then stop": `<- options` + `-> DONE`
+            let tt: Vec<String> = self
+                .knots
+                .iter()
+                .enumerate()
+                .filter(|(j, k)| k.kind == KnotKind::ThreadTarget && sc.kidx.map(|i| *j > i).unwrap_or(true))
+                .map(|(_, k)| k.name.clone())
+                .collect();
+            let k = self.t.pick(tt.len());
+            b.stmts.push(Stmt::Thread(tt[k].clone()));
+            b.stmts.push(Stmt::Done);
         } else if must_end {
+            // occasionally the author forgot the terminator: content simply runs out
+            // (an error, unless the flow already made a safe exit)
+            let odds = if sc.kind == KnotKind::ThreadTarget { 3 } else { 14 };
+            if self.p.done_and_fall_off && sc.func.is_none() && self.t.chance(1, odds) {
+                return b;
+            }
             let t = self.terminal(sc);
             b.stmts.push(t);
         }
@@ -556,6 +622,9 @@ impl<'a> Gen<'a> {
             let mut conds = vec![];
             if self.t.chance(1, 4) {
                 conds.push(self.bool_expr(sc, 1));
+            } else if sc.kind == KnotKind::ThreadTarget && self.t.chance(1, 2) {
+                // options that are not on offer right now (leaves only the fallback)
+                conds.push(Expr::Lit(Lit::Bool(false)));
             }
             let start = if self.t.chance(5, 6) {
                 vec![Inline::Text(self.words(1, 3))]
@@ -645,6 +714,9 @@ impl<'a> Gen<'a> {
             if has_gather && self.t.chance(1, 2) {
                 // `* ->` followed by a body that falls to the gather
                 fb.body = self.block(sc, depth + 1, false);
+            } else if self.t.chance(1, 3) {
+                // `* ->` followed by its own content (which may forget its terminator)
+                fb.body = self.block(sc, depth + 1, true);
             } else {
                 let t = self.terminal(sc);
                 match self.target_string(sc, t.clone()) {
@@ -861,23 +933,32 @@ impl<'a> Gen<'a> {
             Some(i) => i + 1,
             None => 0,
         };
-        let mut c: Vec<(String, usize)> = self
+        let int_vars = self.vars_of(sc, Ty::Int);
+        let mut c: Vec<(String, usize, Vec<bool>)> = self
             .funcs
             .iter()
             .enumerate()
             .filter(|(j, f)| *j >= from && (want.is_none() || f.ret == want))
-            .map(|(_, f)| (f.name.clone(), f.params.len()))
+            .filter(|(_, f)| !f.refs.iter().any(|r| *r) || !int_vars.is_empty())
+            .map(|(_, f)| (f.name.clone(), f.params.len(), f.refs.clone()))
             .collect();
         if want.is_none() || want == Some(Ty::Int) {
             for e in &self.externals {
-                c.push((e.name.clone(), e.nargs));
+                c.push((e.name.clone(), e.nargs, vec![false; e.nargs]));
             }
         }
         if c.is_empty() {
             return None;
         }
         let k = self.t.pick(c.len());
-        let args = (0..c[k].1).map(|_| self.int_expr(sc, 1)).collect();
+        let mut args = vec![];
+        for i in 0..c[k].1 {
+            if c[k].2.get(i) == Some(&true) {
+                args.push(Expr::Var(int_vars[self.t.pick(int_vars.len())].clone()));
+            } else {
+                args.push(self.int_expr(sc, 1));
+            }
+        }
         Some((c[k].0.clone(), args))
     }
 
